@@ -438,7 +438,6 @@ func VH_C11_closepath_start_Q() {
 	// decode the last subpath
 	subs, ok := vhDecode(p.d)
 	// D31: a subpath consisting of a moveto only is removed by Close together with its start point
-	vKnown("D31", !withLine)
 	vAssert("C11.closepath.decodable", ok && len(subs) > 0)
 	if !ok || len(subs) == 0 {
 		return
